@@ -549,7 +549,7 @@ static void run_random(long long ops, int maxn, vh_rng *r) {
  * the multiset of (notifier kind, pointer) events must equal the expectation exactly. */
 #define IK_U 12
 typedef struct { int isval; intptr_t p; } IkEv;
-static IkEv ik_ev[64]; static int ik_nev; static long long st_ik_ops, st_ik_null_events, st_ik_events;
+static IkEv ik_ev[64]; static int ik_nev; static long long st_ik_ops, st_ik_null_events, st_ik_events, st_ik_same_value;
 static void ik_kd(ppointer p) { if (ik_nev < 64) { ik_ev[ik_nev].isval = 0; ik_ev[ik_nev].p = (intptr_t)p; } ik_nev++; }
 static void ik_vd(ppointer p) { if (ik_nev < 64) { ik_ev[ik_nev].isval = 1; ik_ev[ik_nev].p = (intptr_t)p; } ik_nev++; }
 static pint ik_cmp(pconstpointer a, pconstpointer b, ppointer d) { intptr_t x = (intptr_t)a, y = (intptr_t)b; (void)d; return x < y ? -1 : x > y ? 1 : 0; }
@@ -570,7 +570,9 @@ static void run_intkeys(long long ops, int cfg, vh_rng *r) {
 		int op = (int)vh_below(r, 100); IkEv want[2 * IK_U]; int nw = 0; st_ik_ops++; st_ops++;
 		k = (int)vh_below(r, IK_U); ik_nev = 0;
 		if (op < 55) {
-			intptr_t v = nextv++;
+			intptr_t v;
+			if (present[k] && vh_below(r, 6) == 0) { v = val[k]; st_ik_same_value++; }      /* the very pointer that is stored already (a new reference to a counted object, an integer): still one notifier call for the replaced value */
+			else v = nextv++;
 			if (present[k]) { if (kn) { want[nw].isval = 0; want[nw++].p = k; } if (vn) { want[nw].isval = 1; want[nw++].p = val[k]; } }
 			p_tree_insert(t, (ppointer)(intptr_t)k, (ppointer)v);
 			if (!ik_expect(present[k] ? "replace" : "insert", want, nw)) break;
@@ -630,9 +632,9 @@ int main(int argc, char **argv) {
 	p_libsys_shutdown();
 	printf("{\"ev\":\"stats\",\"mode\":\"%s\",\"tree\":\"%s\",\"cfg\":%d,\"ops\":%lld,\"histories\":%lld,\"full_checks\":%lld,\"distinct_shapes\":%zu,"
 	       "\"stop_traversals\":%lld,\"inserts\":%lld,\"replaces\":%lld,\"remove_hit\":%lld,\"remove_miss\":%lld,\"clears\":%lld,\"lookups\":%lld,"
-	       "\"compares\":%lld,\"destroy_events\":%lld,\"intkey_ops\":%lld,\"intkey_notifier_calls\":%lld,\"intkey_notifier_calls_with_null\":%lld,\"max_n\":%d,\"max_depth\":%d,\"avl_checked\":%lld,\"rb_checked\":%lld,\"viol\":%d,\"wall\":%.2f,\"removals\":[",
+	       "\"compares\":%lld,\"destroy_events\":%lld,\"intkey_ops\":%lld,\"intkey_notifier_calls\":%lld,\"intkey_notifier_calls_with_null\":%lld,\"intkey_replace_with_stored_value\":%lld,\"max_n\":%d,\"max_depth\":%d,\"avl_checked\":%lld,\"rb_checked\":%lld,\"viol\":%d,\"wall\":%.2f,\"removals\":[",
 	       mode, TNAME[g_type], cfg, st_ops, st_hist, st_full, shcnt, st_stops, st_insert, st_replace, st_remove_hit, st_remove_miss, st_clear,
-	       st_lookups, ncompare, st_destroy_events, st_ik_ops, st_ik_events, st_ik_null_events, st_maxn, st_maxdepth, st_avl_checked, st_rb_colourings_checked, vh_nviol, vh_now() - t0);
+	       st_lookups, ncompare, st_destroy_events, st_ik_ops, st_ik_events, st_ik_null_events, st_ik_same_value, st_maxn, st_maxdepth, st_avl_checked, st_rb_colourings_checked, vh_nviol, vh_now() - t0);
 	for (i = 0; i < 3; i++) { printf("%s[", i ? "," : ""); for (j = 0; j < 4; j++) printf("%s%lld", j ? "," : "", st_rm[i][j]); printf("]"); }
 	printf("]}\n");
 	return 0;
